@@ -83,7 +83,7 @@ Judge(c) ==
             ELSE IF c.out = "zpe" /\ ~PosOk(c.gtext, c.line, c.col) THEN PrintT(<<"REJECT", c.id, "position_outside_text", 0>>)
             ELSE IF r.ok THEN
                 (IF c.out = "grid" THEN
-                    (IF r.amb \/ DocEq(r.grids, c.abs) THEN PrintT(<<"OK", c.id>>)
+                    (IF r.amb \/ DocEq(IF c.single /\ r.grids # <<>> THEN <<r.grids[1]>> ELSE r.grids, c.abs) THEN PrintT(<<"OK", c.id>>)
                      ELSE PrintT(<<"REJECT", c.id, "misparsed_" \o DiffClause(r.grids, c.abs), 0>>))
                  ELSE IF c.out = "zpe" THEN PrintT(<<"NOTE", c.id, "rejected_wellformed", 0>>)
                  ELSE PrintT(<<"REJECT", c.id, "other_exception", 0>>))
